@@ -49,7 +49,7 @@ let () =
             let texts = List.concat_map (function
               | _ :: _ :: init :: ds -> init :: List.map (fun (_, t) -> string_of_bytes t) (deltas ds)
               | _ -> []) recs in
-            run_mock_multi_gen (z_of_string f.(1)) (z_of_string f.(2)) (parse_regs f.(3)) (z_of_string f.(4)) (unhex f.(5))
+            run_mock_file_gen (z_of_string f.(1)) (z_of_string f.(2)) (parse_regs f.(3)) (z_of_string f.(4)) (unhex f.(5))
               (List.map mk recs) (names_of texts), 'A'
           end else begin
             let k = match f.(1) with "x86" -> 0 | "amd64" -> 1 | "arm64" -> 2 | "arm" -> 3 | "mips" -> 4 | "mips64" -> 5 | _ -> failwith "arch" in
